@@ -1,6 +1,6 @@
 SPECIFICATION Spec
 CONSTANTS Kinds = {"rm", "rcm"} MaxR = 3 MaxC = 2 MaxLate = 1 MaxClose = 2 GraceSet = {2} MaxT = 3
   RClasses = {"nil", "err", "canceled"} CClasses = {"nil", "err"}
-  AtomicAddCloser = TRUE GraceRecheck = TRUE Monitor = TRUE Defect = "none"
+  AtomicAddCloser = TRUE GraceRecheck = TRUE ReleaseBeforeStart = TRUE Monitor = TRUE Defect = "none"
 INVARIANTS NotBad ClosersAfterRunners StoppedLast
 CHECK_DEADLOCK FALSE
